@@ -165,11 +165,22 @@ def osmlem(op, x, data, niter, callback=None, **kwargs):
         sensitivities = [np.maximum(opi.adjoint(opi.range.one()), eps)
                          for opi in op]
     else:
-        # Make sure the sensitivities is a list of the correct size.
-        try:
-            list(sensitivities)
-        except TypeError:
+        # A scalar or a single domain element(-like) is used for all
+        # subsets, otherwise one value per subset is expected.
+        domain = op[0].domain
+        if np.isscalar(sensitivities):
             sensitivities = [sensitivities] * n_ops
+        elif (sensitivities in domain or
+              np.shape(sensitivities) == domain.shape):
+            sensitivities = [domain.element(sensitivities)] * n_ops
+        else:
+            sensitivities = [sens if np.isscalar(sens)
+                             else domain.element(sens)
+                             for sens in sensitivities]
+            if len(sensitivities) != n_ops:
+                raise ValueError('number of sensitivities ({}) does not '
+                                 'match number of operators ({})'
+                                 ''.format(len(sensitivities), n_ops))
 
     tmp_dom = op[0].domain.element()
     tmp_ran = [opi.range.element() for opi in op]
